@@ -304,6 +304,10 @@ class CouplingGraph(Collection[tuple[int, int]]):
         return list(self._adj[qudit])
 
     def __contains__(self, __o: object) -> bool:
+        if isinstance(__o, tuple) and len(__o) == 2:
+            if is_integer(__o[0]) and is_integer(__o[1]):
+                # Edges are undirected and stored with sorted endpoints
+                __o = (min(__o), max(__o))
         return self._edges.__contains__(__o)
 
     def __eq__(self, __o: object) -> bool:
